@@ -454,6 +454,15 @@ def prop3_specs(tier):
                     if base_opt == pc[1] or base_opt == pc[-1]:
                         for inv in ([classes[0][0]], [classes[-1][0]], [classes[0][0], classes[-1][0]]):
                             out.append({"family": "prop3", "shape": shape, "props": props, "inv": inv})
+    # several bases: the last class extends the property of its FIRST base with a setter of its own; the getter and the deleter
+    # stay the very accessors of that base, whose contracts (and those of the other base) must stay as they are
+    for shape in ("two_bases", "two_bases_rev"):
+        classes = SHAPES[shape]
+        two = [list(t) for t in itertools.product([(0, 0), (1, 1)], repeat=3)]
+        for pa in (two if tier == "thorough" else [two[0], two[-1]]):
+            for pb in (two if tier == "thorough" else [two[0], two[-1]]):
+                for sopt in opts:
+                    out.append({"family": "prop3", "shape": shape, "props": [pa, pb, {"ext_setter": list(sopt)}]})
     return out
 
 
